@@ -45,6 +45,12 @@ var raceTemplates = [][]string{
 	{"CLIENT", "SETINFO", "LIB-NAME", "lib"}, {"CLIENT", "SETINFO", "LIB-VER", "1.0"}, {"COMMAND", "DOCS", "get"}, {"COMMAND", "GETKEYSANDFLAGS", "SET", "a", "b"}, {"COMMAND", "INFO", "get"}, {"COMMAND", "LIST"}, {"COMMAND", "HELP"},
 	{"DECR", "ks"}, {"INCRBY", "ks", "2"}, {"HMSET", "kh", "f", "v"}, {"PEXPIREAT", "kl", "1893457000000"}, {"PSETEX", "ks", "100000", "v"}, {"RPUSHX", "kl", "v"}, {"SUBSTR", "ks", "0", "0"},
 	{"BRPOP", "kl", "0.01"}, {"BRPOPLPUSH", "kl", "kl2", "0.01"}, {"BLMPOP", "0.01", "1", "kl", "LEFT"},
+	// option clauses in other orders than the command table lists them, and several of them (the argument
+	// parser works on tables shared by all connections)
+	{"SET", "ks", "v", "GET", "NX"}, {"SET", "ks", "v", "KEEPTTL", "XX", "GET"}, {"SET", "ks", "v", "PX", "100000", "NX"}, {"GETEX", "ks", "PERSIST"}, {"EXPIRE", "ks", "100", "GT"}, {"LPOS", "kl", "e", "MAXLEN", "5", "COUNT", "0", "RANK", "1"},
+	{"SCAN", "0", "COUNT", "5", "TYPE", "string", "MATCH", "k*"}, {"SORT", "kl", "LIMIT", "0", "1", "DESC", "ALPHA"}, {"SORT", "kl", "ALPHA", "GET", "#", "GET", "k*", "BY", "nosort"}, {"BITFIELD", "ks", "OVERFLOW", "SAT", "SET", "u4", "0", "1", "GET", "u4", "4"},
+	{"BITPOS", "ks", "1", "0", "-1", "BIT"}, {"BITCOUNT", "ks", "0", "-1", "BYTE"}, {"LCS", "ks", "ks2", "IDX", "WITHMATCHLEN", "MINMATCHLEN", "1"}, {"HSCAN", "kh", "0", "COUNT", "5", "MATCH", "*"}, {"CLIENT", "KILL", "LADDR", "9.9.9.9:1", "SKIPME", "yes", "ID", "999"},
+	{"CLIENT", "LIST", "TYPE", "normal"}, {"HELLO", "3", "SETNAME", "nm"}, {"COPY", "kh", "kn", "REPLACE", "DB", "0"}, {"RESTORE", "kn", "0", "x", "ABSTTL", "REPLACE"}, {"LMPOP", "2", "kl", "kl2", "RIGHT", "COUNT", "2"}, {"SINTERCARD", "2", "kz", "kz2", "LIMIT", "1"},
 }
 
 var raceSetup = [][]string{
@@ -204,6 +210,25 @@ func raceScenarios(tier string) []*Scenario {
 	add(&raceScenario{name: "watch-exec||writers", threads: [][][]string{{{"WATCH", "ks", "kl"}, {"MULTI"}, {"INCR", "ks"}, {"EXEC"}}, {{"SET", "ks", "5"}}, {{"RPUSH", "kl", "w"}}}})
 	add(&raceScenario{name: "blocked||unblock||push", threads: [][][]string{{{"BLPOP", "kb", "0"}}, {{"CLIENT", "UNBLOCK", "$id0"}}, {{"RPUSH", "kb", "x"}}}})
 	add(&raceScenario{name: "blocked||kill||list", threads: [][][]string{{{"BLPOP", "kb", "0"}}, {{"CLIENT", "KILL", "ID", "$id0"}}, {{"CLIENT", "LIST"}}}})
+	// connections in different databases: whatever they share is not protected by either database's lock
+	add(&raceScenario{name: "db0:BLPOP||db1:BLPOP||pushes", threads: [][][]string{{{"BLPOP", "kb", "0.01"}}, {{"SELECT", "1"}, {"BLPOP", "kb", "0.01"}}, {{"RPUSH", "kb", "x"}}}})
+	add(&raceScenario{name: "db0:BLMOVE-served||db1:BLPOP-served", threads: [][][]string{{{"BLMOVE", "kb", "kb2", "LEFT", "LEFT", "0"}}, {{"SELECT", "1"}, {"BLPOP", "kb", "0"}}, {{"RPUSH", "kb", "x"}, {"SELECT", "1"}, {"RPUSH", "kb", "y"}}}})
+	add(&raceScenario{name: "db0:CLIENT_LIST||db1:WATCH||db1:SET", threads: [][][]string{{{"CLIENT", "LIST"}, {"CLIENT", "INFO"}}, {{"SELECT", "1"}, {"WATCH", "kw"}, {"MULTI"}, {"GET", "kw"}, {"EXEC"}}, {{"SELECT", "1"}, {"SET", "kw", "1"}, {"RPUSH", "kw2", "x"}}}})
+	add(&raceScenario{name: "db0:EXEC(SELECT1)||db1:SET||db0:SET", threads: [][][]string{{{"MULTI"}, {"SET", "ks", "t"}, {"SELECT", "1"}, {"SET", "ks", "t1"}, {"DBSIZE"}, {"EXEC"}}, {{"SELECT", "1"}, {"SET", "ks", "w1"}, {"GET", "ks"}}, {{"SET", "ks", "w0"}}}})
+	add(&raceScenario{name: "db0:HSET||db1:HSET||db2:SADD", threads: [][][]string{{{"HSET", "kh", "f", "1"}, {"HGETALL", "kh"}}, {{"SELECT", "1"}, {"HSET", "kh", "f", "1"}, {"HGETALL", "kh"}}, {{"SELECT", "2"}, {"SADD", "kz", "m"}, {"SMEMBERS", "kz"}}}})
+	// command numbers are per database and the lock bypass of EXEC goes by number: a transaction that crosses
+	// into database 1 against a connection there whose n-th command has every number EXEC could carry
+	for n := 0; n <= 24; n++ {
+		if tier != "thorough" && n%2 == 1 {
+			continue
+		}
+		other := [][]string{{"SELECT", "1"}}
+		for i := 0; i < n; i++ {
+			other = append(other, []string{"PING"})
+		}
+		other = append(other, []string{"RPUSH", "kq", "o"}, []string{"LPOP", "kq"})
+		add(&raceScenario{name: fmt.Sprintf("db0:EXEC(SELECT1,RPUSH,LRANGE)||db1:PINGx%d+RPUSH", n), threads: [][][]string{{{"MULTI"}, {"SELECT", "1"}, {"RPUSH", "kq", "t"}, {"LRANGE", "kq", "0", "-1"}, {"EXEC"}}, other}})
+	}
 	add(&raceScenario{name: "select||flushall||dbsize", threads: [][][]string{{{"SELECT", "1"}, {"SET", "a", "1"}, {"DBSIZE"}}, {{"FLUSHALL"}}, {{"SELECT", "1"}, {"DBSIZE"}}}})
 	return out
 }
